@@ -670,7 +670,10 @@ def _check_b(ctx, L, t, name, value, rep_desc, case):
         ctx.fail('value2name|%s|%s|not_named' % (tid, name),
                  '%s: code %#x of %s is reported as %r (via %s), not by a name' % (tid, value, name, rep, how), case)
         return False
-    if t.kind != 'rev' and rep not in t.byname:
+    if t.kind != 'rev' and rep not in t.byname and 'describe_' in how and any(same_name(t, rep, rn) for rn in ns_names(t, value, name)):
+        # a *description* (what the readelf clone prints) may use another registry's spelling of the same code
+        ctx.count('value2name.description_uses_other_registry_spelling')
+    elif t.kind != 'rev' and rep not in t.byname:
         ctx.fail('value2name|%s|%s|foreign_name' % (tid, name),
                  '%s: code %#x is reported as %s (via %s), which is not a name of the table' % (tid, value, rep, how), case)
     elif t.kind != 'rev' and t.byname.get(rep) != value:
